@@ -51,17 +51,20 @@ def Entry.hasAttempts (e : Entry) : Bool := e.primary ≠ 0 || !e.extras.isEmpty
 def sessionCount (s : St) (uid : Str) (sess : Nat) : Nat :=
   (s.entries.filter (fun ke => inSession uid sess ke.1)).length
 
-/-- the locked body shared by `BindResult` and `BindBatch`: returns (state, token or 0, added) -/
+/-- `if pending.DeliveredAt == 0 { pending.DeliveredAt = t.now() }` -/
+def stamp (s : St) (p : Pend) : Pend := if p.dat = 0 then { p with dat := s.now } else p
+
+/-- the locked body shared by `BindResult` and `BindBatch`: returns (state, token or 0, added).
+    `existed` selects between a fresh zero entry (limit applies) and the stored one. -/
 def bindCore (s : St) (p : Pend) : St × Nat × Bool :=
-  let p := if p.dat = 0 then { p with dat := s.now } else p
-  let k := p.key
-  let existed := aget k s.entries
-  if s.maxPer > 0 && existed.isNone && decide ((sessionCount s p.uid p.sess : Int) ≥ s.maxPer) then (s, 0, false)
-  else
-    let tok := s.nextTok + 1
-    let e := (existed.getD {}).addAttempt p tok
-    let s := { s with nextTok := tok, entries := aput k e s.entries }
-    if existed.isNone then ({ s with count := s.count + 1 }, tok, true) else (s, tok, false)
+  let q := stamp s p
+  let tok := s.nextTok + 1
+  match aget q.key s.entries with
+  | none =>
+    if s.maxPer > 0 && decide ((sessionCount s q.uid q.sess : Int) ≥ s.maxPer) then (s, 0, false)
+    else ({ s with nextTok := tok, entries := aput q.key (({} : Entry).addAttempt q tok) s.entries,
+                   count := s.count + 1 }, tok, true)
+  | some e => ({ s with nextTok := tok, entries := aput q.key (e.addAttempt q tok) s.entries }, tok, false)
 
 structure BindRes where
   bound : Bool
